@@ -34,6 +34,8 @@ type Program struct {
 	Victim   []*sim.Step // txn 0 (client 0): begin ... (commit is appended by the runner)
 	Conflict []*sim.Step // txn 101 (client 1): commits after the victim began
 	Recovery []*sim.Step // txns 200.. (client 1) after the locks expired
+	// SlowSecondaries: "lock present" answers of CheckSecondaryLocks arrive after "lock missing" ones (sim.Cluster)
+	SlowSecondaries bool
 }
 
 // Steps renders a step list.
@@ -46,8 +48,8 @@ func Steps(ss []*sim.Step) string {
 }
 
 func (p *Program) String() string {
-	return fmt.Sprintf("backend=%v stores=%d batch1=%v conc1=%v splits=%q | init: %s | victim: %s | conflict: %s | recovery: %s",
-		p.Backend, p.NStores, p.Batch1, p.Conc1, p.Splits, Steps(p.Initial), Steps(p.Victim), Steps(p.Conflict), Steps(p.Recovery))
+	return fmt.Sprintf("backend=%v stores=%d batch1=%v conc1=%v slow-present-secondaries=%v splits=%q | init: %s | victim: %s | conflict: %s | recovery: %s",
+		p.Backend, p.NStores, p.Batch1, p.Conc1, p.SlowSecondaries, p.Splits, Steps(p.Initial), Steps(p.Victim), Steps(p.Conflict), Steps(p.Recovery))
 }
 
 // Gen draws a scenario.
@@ -58,6 +60,9 @@ func Gen(t *rapid.T, backend sim.Backend) *Program {
 	}
 	p.Batch1 = rapid.Bool().Draw(t, "batch1")
 	p.Conc1 = rapid.IntRange(0, 3).Draw(t, "conc1") != 0
+	if backend == sim.Uni {
+		p.SlowSecondaries = rapid.Bool().Draw(t, "slowsecondaries")
+	}
 	nKeys := rapid.IntRange(1, 5).Draw(t, "nkeys")
 	p.Keys = append([]string{}, rapid.Permutation(keyPool).Draw(t, "keys")[:nKeys]...)
 	sort.Strings(p.Keys)
@@ -219,6 +224,7 @@ func Run(p *Program, o Opts) (res Outcome) {
 		return
 	}
 	defer cl.Close()
+	cl.SlowPresentSecondaries = p.SlowSecondaries
 	for _, k := range p.Splits {
 		cl.SplitAt(k)
 	}
